@@ -6,17 +6,21 @@ out, prefix, prop, demo = sys.argv[1:5]; pkgs = sys.argv[5:]
 for m in sorted(os.listdir(out)):
     d = os.path.join(out, m)
     if not (os.path.isdir(d) and os.path.exists(os.path.join(d, 'patch.diff'))): continue
-    r = subprocess.run(['/verif/tools/seedconfirm.sh', d, demo] + pkgs, capture_output=True, text=True)
+    note0 = open(os.path.join(d, 'note.txt')).read()
+    mm = re.search(r'[Dd]emo dir[^:]*:\s*`?([\w/]+)`?', note0)
+    demo_m = mm.group(1) if mm else demo
+    r = subprocess.run(['/verif/tools/seedconfirm.sh', d, demo_m] + pkgs, capture_output=True, text=True)
     line = (r.stdout.strip().splitlines() or ['?'])[-1]
     ok = 'demo-fails-without-patch=0' in line and 'existing-fails-with-patch=0' in line and not line.endswith('demo-fails-with-patch=0') and 'FAILED' not in line
     print(m, 'CONFIRMED' if ok else 'REJECTED', line)
     if not ok: continue
     dst = f'/verif/seeded/{prefix}-{m}'
+    if os.path.exists(dst): dst = f'/verif/seeded/{prefix}-r5{m}'
     os.makedirs(dst, exist_ok=True)
     for f in ('patch.diff', 'demo_test.go', 'note.txt'):
         shutil.copy(os.path.join(d, f), dst)
     note = open(os.path.join(d, 'note.txt')).read()
-    meta = {"breaks_property": prop, "check_props": [prop], "demo_dir": demo,
+    meta = {"breaks_property": prop, "check_props": [prop], "demo_dir": demo_m,
             "needs_to_manifest": note[:1500],
             "origin": "fresh sub-agent given only the property text and a scratch worktree",
             "confirmed": "tools/seedconfirm.sh: patch applies to a copy of /repo HEAD, builds, existing package tests pass (network-only tests aside), demo_test.go fails with the patch and passes without it (" + line + ")",
